@@ -91,8 +91,12 @@ def check_page(ctx, case):
     os.environ["COLUMNS"] = str(width)
     rec = c03.Recorder()
     try:
-        app = gen_tree.build_app(tree, "default", rec.handler_for,
-                                 configure=lambda cfg: cfg.set_name("my-app").set_version("1.0"))
+        def configure(cfg):
+            cfg.set_name("my-app").set_version(case.get("version", "1.0"))
+            if case.get("display"):
+                cfg.set_display_name(case["display"])
+
+        app = gen_tree.build_app(tree, "default", rec.handler_for, configure=configure)
     except Exception as e:
         raise AssertionError("generator built an illegal tree: %r" % (e,))
     node = gen_tree.node_at(tree, "default", path) if path else None
@@ -215,7 +219,12 @@ def page_case(draw):
     path = draw(st.sampled_from(paths))
     need = min_width(tree, path)
     width = draw(st.one_of(st.just(need), st.integers(need, need + 3), st.integers(max(40, need), 200)))
-    return {"tree": tree, "path": path, "width": width, "ansi": draw(st.booleans()), "via_run": draw(st.booleans())}
+    case = {"tree": tree, "path": path, "width": width, "ansi": draw(st.booleans()), "via_run": draw(st.booleans())}
+    if not path and draw(st.booleans()):
+        # the first line of the application page: display name and version of any length
+        case["display"] = draw(st.sampled_from([None, "Tool", "The Acme Deployment And Provisioning Console For Everything"]))
+        case["version"] = draw(st.sampled_from([None, "1.0", "2.14.0-rc.3+build.20240117.deadbeef.cafebabe.0123456789"]))
+    return case
 
 
 HYP = {"page": (lambda ctx: page_case(), check_page)}
